@@ -1,11 +1,15 @@
 import Cirbo.Proofs.Rewrite
+import Cirbo.Proofs.Rename
 /-!
 # C19 — Local rewrites keep or specialise the function exactly as documented
 
 -- OBLIGATION: c19_replace_inputs_is_cofactor
 -- OBLIGATION: c19_remove_gate
 -- OBLIGATION: c19_remove_gate_rejects
--- PARTIAL: rename_gate (every reference follows the rename; truth table unchanged) and replace_subcircuit (equivalent replacement keeps the truth table and well-formedness or raises a documented error) are modelled one-to-one (Model/Mutate.lean renameGate, Mutate2.lean replaceSubcircuit incl. slice collection, block removal, re-insertion, restored users, final cycle check) and compared field by field with the code on every gate / many slices per circuit, with truth tables and checkWFU as oracles, but their theorems are not proved yet.
+-- OBLIGATION: c19_rename_references_follow
+-- OBLIGATION: c19_rename_keeps_function
+-- OBLIGATION: c19_rename_keeps_invariant
+-- PARTIAL: replace_subcircuit (equivalent replacement keeps the truth table and well-formedness or raises a documented error) is modelled one-to-one (Mutate2.lean replaceSubcircuit incl. slice collection, block removal, re-insertion, restored users, final cycle check) and compared field by field with the code on many slices per circuit, with truth tables and checkWFU as oracles, but its theorem is not proved yet.
 -/
 namespace Cirbo
 open Circuit
@@ -35,8 +39,33 @@ theorem c19_remove_gate_rejects {c : Circuit} {l : Label} :
     (l ∉ c.labels → c.removeGate l = .error "CircuitValidationError") ∧
     (l ∈ c.labels → c.usersOf l ≠ [] → c.removeGate l = .error "GateHasUsersError") := removeGate_rejects
 
+/-- **Renaming a gate: every reference follows.** On a well-formed circuit, whenever `rename_gate(old, new)`
+returns, the result is the circuit with `old` replaced by `new` everywhere: its gates are exactly the
+gates of the argument with label and operands renamed, its labels are distinct, the input list, the
+output list (every occurrence) and every block's inputs/members/outputs are the renamed lists, and the
+users index is the renamed users index (`old` has no entry left). -/
+theorem c19_rename_references_follow {c c' : Circuit} {old new : Label} (hw : WFS c)
+    (h : c.renameGate old new = .ok c') : Renamed c c' old new ∧ old ∈ c.labels ∧ new ∉ c.labels :=
+  renameGate_renamed hw h
+
+/-- **Renaming changes no truth table**: every valuation of the argument, read through the inverse
+renaming, is a valuation of the result, and the outputs get the same values position by position. -/
+theorem c19_rename_keeps_function {c c' : Circuit} {old new : Label} (hw : WFS c)
+    (h : c.renameGate old new = .ok c') {b v : Label → Bool} (hv : IsValB c b v) :
+    IsValB c' (b ∘ rhoInv old new) (v ∘ rhoInv old new) ∧
+    c'.outputs.map (v ∘ rhoInv old new) = c.outputs.map v := by
+  obtain ⟨hr, _, hnew⟩ := renameGate_renamed hw h
+  exact renamed_val hw hnew hr hv
+
+/-- and the result is well formed again (operands, outputs, users index, inputs, acyclicity, blocks) -/
+theorem c19_rename_keeps_invariant {c c' : Circuit} {old new : Label} (hw : WFS c)
+    (h : c.renameGate old new = .ok c') : WFS c' := renameGate_wfs hw h
+
 #print axioms c19_replace_inputs_is_cofactor
 #print axioms c19_remove_gate
 #print axioms c19_remove_gate_rejects
+#print axioms c19_rename_references_follow
+#print axioms c19_rename_keeps_function
+#print axioms c19_rename_keeps_invariant
 
 end Cirbo
